@@ -3,7 +3,7 @@ from . import rtprop
 
 THEOREMS = ['FlexVerif.validate_sound', 'FlexVerif.Buf.run_from_init', 'FlexVerif.Buf.refill_spec']
 # functions translated from the generated scanner in this run: no access outside the array is part of what is proved
-TRANSLATED = ['FlexVerif.C03NextBuf.never_out_of_bounds', 'FlexVerif.C05Stack.never_out_of_bounds', 'FlexVerif.C11Stack.stack_refines',
+TRANSLATED = ['FlexVerif.C03NextBuf.never_out_of_bounds', 'FlexVerif.C03NextBufC99.never_out_of_bounds_c99', 'FlexVerif.C05Stack.never_out_of_bounds', 'FlexVerif.C11Stack.stack_refines',
               'FlexVerif.C08Unput.unput_spec']
 
 
